@@ -22,7 +22,7 @@ from fractions import Fraction
 
 from harness.lib.core import BUILD, REPO, Corr, blit, llit, olit, qlit
 from harness.props.C01 import read_facts
-from harness.props.C03 import accounting_oracle, cfg_from_params, crit_config, eq_keys, frame_ground_truth, pf_config
+from harness.props.C03 import accounting_oracle, cfg_from_params, crit_config, eq_keys, frame_ground_truth, keys_vs_spec, pf_config
 from harness.props.C10 import EGO_POSES, NAMES, UUIDS, build_object, cfg_lit, ego_to_frame, label_id, obj_lit, object_facts
 
 os.environ.setdefault("TQDM_DISABLE", "1")
@@ -56,13 +56,19 @@ def manager_for(case):
 
     ev = case["eval"]
     key = (case["frame"], tuple(ev["targets"]), case["policy"], bool(case["fpv"]), repr(ev.get("radii")), repr(ev.get("center")),
-           repr(ev.get("plane")), repr(ev.get("max_x")), repr(ev.get("max_y")), repr(ev.get("conf")))
+           repr(ev.get("plane")), repr(ev.get("max_x")), repr(ev.get("max_y")), repr(ev.get("conf")), repr(ev.get("max_dist")),
+           repr(ev.get("min_dist")), repr(ev.get("min_pts")), repr(ev.get("ignore")))
     if key not in _MANAGERS:
         n = len(ev["targets"])
         d = {"evaluation_task": "fp_validation" if case["fpv"] else "detection", "target_labels": list(ev["targets"]),
-             "max_x_position": ev.get("max_x", 1000.0), "max_y_position": ev.get("max_y", 1000.0),
-             "min_point_numbers": [0] * n, "max_matchable_radii": ev.get("radii"), "label_prefix": "autoware",
+             "min_point_numbers": ev.get("min_pts") or [0] * n, "max_matchable_radii": ev.get("radii"), "label_prefix": "autoware",
              "merge_similar_labels": False, "matching_label_policy": case["policy"]}
+        if ev.get("max_dist") is not None:
+            d["max_distance"], d["min_distance"] = ev["max_dist"], ev["min_dist"]       # a distance ring instead of the x/y box
+        else:
+            d["max_x_position"], d["max_y_position"] = ev.get("max_x", 1000.0), ev.get("max_y", 1000.0)
+        if ev.get("ignore") is not None:
+            d["ignore_attributes"] = list(ev["ignore"])
         if ev.get("conf") is not None:
             d["confidence_threshold"] = ev["conf"]
         if not case["fpv"]:
@@ -74,6 +80,24 @@ def manager_for(case):
                                         os.path.join(BUILD, "pipeline_results", str(os.getpid())), d, False)
         _MANAGERS[key] = PerceptionEvaluationManager(ec)
     return _MANAGERS[key]
+
+
+def expected_eval_cfg(case):
+    """the evaluator-level filter criteria as the configuration dict of `manager_for` documents them (a number applies to every target
+    label, a list gives one entry per target label), in the JSON shape of harness/props/C10.py"""
+    ev = case["eval"]
+    n = len(ev["targets"])
+
+    def per_label(v):
+        return None if v is None else ([float(x) for x in v] if isinstance(v, list) else [float(v)] * n)
+
+    cfg = {"targets": [("autoware", t) for t in ev["targets"]], "ignore": ev.get("ignore"), "max_x": None, "max_y": None, "max_dist": None,
+           "min_dist": None, "min_pts": [int(x) for x in (ev.get("min_pts") or [0] * n)], "conf": per_label(ev.get("conf")), "uuids": None}
+    if ev.get("max_dist") is not None:
+        cfg["max_dist"], cfg["min_dist"] = per_label(ev["max_dist"]), per_label(ev["min_dist"])
+    else:
+        cfg["max_x"], cfg["max_y"] = per_label(ev.get("max_x", 1000.0)), per_label(ev.get("max_y", 1000.0))
+    return cfg
 
 
 def build_scene(case):
@@ -166,12 +190,16 @@ def gen_case(rng, stream):
         p = (float(rng.randint(-11, 11)), float(rng.randint(-5, 5)))
         if rng.random() < 0.3:
             p = (float(rng.choice([-10, 10, 8, 6, 3, -3, 12, 14])), float(rng.choice([-5, 5, 0, 4, -4, 7])))
-        if p in used:
-            continue                        # ground truths with identical __eq__ keys are outside the quantifier
-        used.add(p)
         lab = rng.choice(targets * 3 + ["false_positive", "false_positive", "truck", "unknown"])
+        qi = rng.randrange(len(YAW_Q))
+        if gts and rng.random() < 0.1:
+            p = tuple(rng.choice(gts)["ego_xy"])     # at the very position of another ground truth: the keys differ by label / orientation
+        if (p, lab, qi) in used:
+            continue                        # ground truths with identical __eq__ keys are outside the quantifier
+        used.add((p, lab, qi))
         gts.append(_obj(lab, frame if rng.random() < 0.95 else other, ego, p, 1.0, rng.choice(UUIDS), rng.choice([0, 1, 3, 5, 10]),
-                        rng.randrange(len(YAW_Q)), rng.choice([(2.0, 1.0, 1.0), (4.0, 2.0, 1.5), (1.0, 1.0, 2.0)])))
+                        qi, rng.choice([(2.0, 1.0, 1.0), (4.0, 2.0, 1.5), (1.0, 1.0, 2.0)]),
+                        attrs=rng.sample(["vehicle_state.parked", "cycle_state.without_rider"], rng.choice([0, 0, 0, 1]))))
     ests = []
     for _ in range(ne):
         conf = rng.choice(conf_pool)
@@ -191,6 +219,16 @@ def gen_case(rng, stream):
     rng.shuffle(ests)
     # evaluator (manager-level) configuration
     ev = {"targets": targets, "max_x": rng.choice([1000.0, 1000.0, 13.0]), "max_y": rng.choice([1000.0, 1000.0, 6.5])}
+    r = rng.random()
+    if r < 0.2:
+        # the evaluator's other range kind: a distance ring (one number, or one per target label)
+        del ev["max_x"], ev["max_y"]
+        ev["max_dist"] = rng.choice([1000.0, 13.0, 12.5]) if rng.random() < 0.5 else [rng.choice([1000.0, 13.0, 10.0]) for _ in targets]
+        ev["min_dist"] = rng.choice([0.0, 0.0, 3.0]) if rng.random() < 0.5 else [rng.choice([0.0, 0.0, 3.0, 5.0]) for _ in targets]
+    if rng.random() < 0.2:
+        ev["min_pts"] = [rng.choice([0, 1, 3, 5]) for _ in targets]          # evaluator-level minimum point numbers other than 0
+    if rng.random() < 0.12:
+        ev["ignore"] = rng.choice([["vehicle_state.parked"], ["cycle_state.without_rider", "construction"], []])
     r = rng.random()
     ev["radii"] = None if r < 0.25 else (rng.choice(RADII) if r < 0.5 else [rng.choice(RADII) for _ in targets])
     n_c = rng.choice([1, 1, 2])
@@ -439,6 +477,24 @@ class PipelineCorr(Corr):
             if obs["error"] == "KeyError" and not case["fpv"] and any(t not in crit_ids for t in obs["det_targets"]):
                 return None            # a detection target label without entry in the critical filter: documented misuse
             return f"add_frame_result raised {obs['error']} ({obs.get('error_text')}) on a well-formed frame"
+        # "in whichever frame the objects are expressed": the ego-relative coordinates every filter of the pipeline works with (read through
+        # the getters the filter calls) must be the coordinates the objects were generated at in the ego frame
+        from harness.props.C10 import facts_vs_generator
+
+        m = (facts_vs_generator(case["ests"], obs["pre"]["est_all"], "base_link", None, "estimate")
+             or facts_vs_generator(case["gts"], obs["pre"]["gt_all"], "base_link", None, "ground truth"))
+        if m:
+            return m
+        # "all manager filter settings": the objects the evaluator hands to the matcher are exactly the ones its documented criteria keep
+        from harness.props.C10 import doc_keep
+
+        pre = obs["pre"]
+        want_cfg = expected_eval_cfg(case)        # from the configuration DICT the evaluator was given, not from its filtering_params
+        for who, is_gt, facts_all, kept in (("estimates", False, pre["est_all"], pre["kept_est"]), ("ground truths", True, pre["gt_all"], pre["kept_gt"])):
+            want = [i for i, f in enumerate(facts_all) if doc_keep(f, want_cfg, is_gt, True)]
+            if want != kept:
+                return (f"evaluator configured with {case['eval']}: the {who} handed to the matcher are {kept} but the configured criteria "
+                        f"select {want}")
         gf = obs["gt_facts"]
         tp, fp, tn, fn, surv, crit_gts = obs["tp"], obs["fp"], obs["tn"], obs["fn"], obs["results"], obs["gts"]
         if any(e < 0 or (g is not None and g < 0) for e, g in tp + fp + surv + obs["matched"]) or any(g < 0 for g in tn + fn + crit_gts):
@@ -456,7 +512,11 @@ class PipelineCorr(Corr):
         # results = TP + FP ; |ordinary critical GT| = |TP| + |FN|
         if sorted(e for e, _ in tp + fp) != sorted(e for e, _ in surv):
             return f"surviving results {sorted(e for e, _ in surv)} are not TP + FP {sorted(e for e, _ in tp + fp)}"
-        distinct_keys = len(set(obs["gt_keys"])) == len(obs["gt_keys"])
+        # __eq__ keys: decided on the generated ground truths (label, position, orientation), not through `==`
+        k = keys_vs_spec(case["gts"], case["frame"], obs["gt_keys"], obs["pre"]["kept_gt"])
+        if k not in (None, "skip"):
+            return k
+        distinct_keys = k is None
         n_ord = sum(1 for g in crit_gts if not gf[g]["is_fp"])
         if distinct_keys and n_ord != len(tp) + len(fn):
             return f"{n_ord} ordinary critical ground truths but TP + FN = {len(tp)} + {len(fn)}"
@@ -542,7 +602,7 @@ class PipelineCorr(Corr):
         d = {"frames": {}, "policies": {}, "streams": {}, "fp_validation": 0, "raised": {}, "est_in": 0, "gt_in": 0, "est_to_matcher": 0,
              "gt_to_matcher": 0, "pairs": 0, "pairs_label_incompatible": 0, "unknown_est_matched": 0, "results_surviving": 0, "gts_critical": 0,
              "TP": 0, "FP": 0, "TN": 0, "FN": 0, "fp_labelled_gt": 0, "mixed_frame_scenes": 0, "confidence_ties": 0,
-             "center_on_ap_threshold": 0, "plane_on_pf_threshold": 0, "center_on_radius": 0, "maps": 0, "aps_defined": 0, "aps_undefined": 0,
+             "gts_sharing_a_position": 0, "evaluator_filter": {}, "center_on_ap_threshold": 0, "plane_on_pf_threshold": 0, "center_on_radius": 0, "maps": 0, "aps_defined": 0, "aps_undefined": 0,
              "aps_strictly_between_0_1": 0, "ap_tp_equals_num_gt": 0, "buckets_with_foreign_gt_label": 0}
 
         def bump(h, k):
@@ -553,6 +613,11 @@ class PipelineCorr(Corr):
                 continue
             bump(d["frames"], c["frame"]); bump(d["policies"], c["policy"]); bump(d["streams"], c["stream"])
             d["fp_validation"] += bool(c["fpv"])
+            for k in ("max_dist", "min_pts", "ignore", "conf"):
+                if c["eval"].get(k) is not None:
+                    bump(d["evaluator_filter"], k)
+            spots = [tuple(g["ego_xy"]) for g in c["gts"]]
+            d["gts_sharing_a_position"] += len(spots) - len(set(spots))
             d["est_in"] += o["n_in"][0]; d["gt_in"] += o["n_in"][1]
             d["est_to_matcher"] += len(o["est_facts"]); d["gt_to_matcher"] += len(o["gt_facts"])
             d["mixed_frame_scenes"] += len(set(o["facts"]["est_frame"] + o["facts"]["gt_frame"])) > 1
